@@ -124,7 +124,7 @@ def coq_certify(items, want=("c05", "c01", "c02"), other=None):
         for i in todo[s:s + shard]:
             it = items[i]
             inter = P.Interner()
-            inter("wf")
+            inter(it.get("name", "wf"))
             src = P.coq_diagram(it["rec"]["d"], inter)
             jobs = coq_list([P.coq_job(j, inter) for j in it["jobs"]])
             toks = P.coq_tokens(it["tokens"], inter)
